@@ -1,7 +1,7 @@
 """Witness classes of known findings, in the contract language (evaluated symbolically)."""
 import z3
 
-from contracts.lib import T, QF, clock, max_dur, max_dur_none, cs_chan, cs_arr, cs_len, s_tf, s_pulse, FALL, in_eom, LPSI, lps_none
+from contracts.lib import T, clock, max_dur, max_dur_none, cs_chan, cs_arr, cs_len, s_tf, s_pulse, FALL, in_eom, LPSI, lps_none
 from pyvc.contracts import QF as _QF
 
 CLASSES = {}
@@ -19,4 +19,27 @@ def _c1(ob, con):
     self = z3.Const("self", z3.DeclareSort("Ref"))
     c, M = clock(self), max_dur(self)
     # inside the class  <=>  max_duration defined and not of the form c*q
-    return z3.And(z3.Not(max_dur_none(self)), M != c * _QF(c, M))
+    inside = z3.And(z3.Not(max_dur_none(self)), M != c * _QF(c, M))
+    d = z3.Int("duration")
+    a, qM = d / c, _QF(c, M)
+    hints = [d == c * a + d % c, z3.Implies(a >= qM, c * a >= c * qM)]     # division identity; monotonicity of multiplication by c >= 1
+    return inside, hints
+
+
+def _entry():
+    from pyvc.core import Heap, Ref, PStr
+    h = Heap(tag="H0")
+    return h, z3.Const("self", Ref), z3.Const("channel", PStr)
+
+
+@cls("pending-fall-time-before-failing-step")
+def _c2(ob, con):
+    """the channel has a pulse whose fall time has not elapsed (so wait_for_fall inserts a delay before the step that raises)."""
+    from contracts.lib import sch_get
+    h, sch, chan = _entry()
+    cs = sch_get(h, sch, chan)
+    arr, n = cs_arr(h, cs), cs_len(h, cs)
+    f = z3.BoolVal(False)
+    L = LPSI(arr, n, f)
+    return z3.And(n > 0, z3.Not(lps_none(arr, n, f)),
+                  s_tf(z3.Select(arr, L)) + FALL(s_pulse(z3.Select(arr, L)), cs_chan(cs), in_eom(h, cs)) > s_tf(z3.Select(arr, n - 1)))
